@@ -81,15 +81,16 @@ def operand_palette(OPC):
     return [0x00, 0x01, 0x7F, 0x80, 0xFF] + named[:0], named
 
 
-def candidates(pre, opcode, OPC):
+def candidates(pre, opcode, OPC, thorough=True):
     """Byte strings to try for one (prefix, opcode): every selector/mode byte x palette tails."""
     pal, named = operand_palette(OPC)
     lead = ([pre] if pre is not None else []) + [opcode]
     tails = []
+    rests = ((0x00, 0x00, 0x00, 0x00), (0x01, 0x7F, 0x80, 0x0F), (0xFF, 0xFF, 0xFF, 0xFF), (0x80, 0x01, 0xFF, 0x02))
     for b1 in range(256):
-        for rest in ((0x00, 0x00, 0x00, 0x00), (0x01, 0x7F, 0x80, 0x0F), (0xFF, 0xFF, 0xFF, 0xFF), (0x80, 0x01, 0xFF, 0x02)):
+        for rest in (rests if thorough else rests[1:2]):
             tails.append((b1,) + rest)
-    for n in named:
+    for n in (named if thorough else named[::5]):
         tails.append((n, 0x10, 0x20, 0x03, 0x00))
         tails.append((0x00, n, 0x20, 0x03, 0x00))
         tails.append((0x80, n, 0x20, 0x03, 0x00))
@@ -106,7 +107,7 @@ def unit(unit):
     seen = {}
     results = []
     evals = 0
-    for b in candidates(pre, opcode, OPC):
+    for b in candidates(pre, opcode, OPC, unit.get("thorough", False)):
         info = arch.get_instruction_info(b, addr)
         if info is None:
             continue
